@@ -72,7 +72,7 @@ def netlist_view(n, ctx=None):
 
 
 def compare_with_model(ctx, design, n):
-    errs = wf.self_contained(n)
+    errs = wf.self_contained(n, strict_refsets=True)
     if errs:
         return "reader-output-ill-formed:%s" % errs[0][0], errs[0][1]
     v = netlist_view(n, ctx)
@@ -218,7 +218,7 @@ def run_case(ctx, i, rng):
         if design is None:
             ctx.count("texts_parsed")
             ctx.count("bundled_files")
-            errs = wf.self_contained(n)
+            errs = wf.self_contained(n, strict_refsets=True)
             if errs:
                 ctx.violation("bundled:reader-output-ill-formed:%s" % errs[0][0], "%s: %s" % (what, errs[0][1]))
                 return
